@@ -153,6 +153,20 @@ func c18(r *core.Run) {
 		if udv != nil {
 			udvKey = localStructTags(udv)["Data"].Key
 		}
+		// a null data value ({"data":null}) is a data value: the member must be decoded into a
+		// json.RawMessage (which keeps the bytes "null"); a pointer or interface would read
+		// null as absent
+		voDataT := ""
+		for _, t := range voTags {
+			if t.Key == "data" {
+				voDataT = t.Type
+			}
+		}
+		r.Check(voDataT == "json.RawMessage", "V1", "store.valueObject", "data-member-keeps-null(json.RawMessage)", "-", "the store's value parser decodes the data member into json.RawMessage: null stays distinguishable from absent", "the store's value object decodes the data member into "+voDataT+": {\"data\":null} is read as 'no data member' and the value is classified invalid / as something else")
+		if udv != nil {
+			t := localStructTags(udv)["Data"].Type
+			r.Check(t == "json.RawMessage", "V1", "resprot.UnmarshalDataValue", "data-member-keeps-null(json.RawMessage)", p.Pos(udv.Pos()), "the client decodes the data member into json.RawMessage", "the client decodes the data member into "+t+": a null data value is lost")
+		}
 		r.Check(dataKeyRes == "data" && litKey == "data" && udvKey == "data" && voKeys["data"], "V1", "DataValue", "data-member-agrees(res,resprot,store)", "-", "DataValue tag, MarshalDataValue literal, UnmarshalDataValue struct and store.valueObject all use member data", fmt.Sprintf("data value member differs: res tag %q, marshal literal %q, unmarshal tag %q, store has data=%v", dataKeyRes, litKey, udvKey, voKeys["data"]))
 	}
 
